@@ -141,6 +141,21 @@ def enc_cfg(vars_, biases):
 
 
 # ------------------------------------------------------------------ parsing of what the implementation wrote
+class BadToken(float):
+    """a token of a data line that is not a number (e.g. two fields run together); behaves as NaN"""
+    def __new__(cls, text):
+        o = float.__new__(cls, "nan")
+        o.text = text
+        return o
+
+
+def tofloat(t):
+    try:
+        return float(t)
+    except ValueError:
+        return BadToken(t)
+
+
 def parse_fields(tokens):
     """data tokens -> list of fields; a parenthesised vector '( a , b , c )' is one field"""
     out = []
@@ -152,11 +167,11 @@ def parse_fields(tokens):
             i += 1
             while i < len(tokens) and tokens[i] != ")":
                 if tokens[i] != ",":
-                    vec.append(float(tokens[i]))
+                    vec.append(tofloat(tokens[i]))
                 i += 1
             out.append(vec)
         else:
-            out.append(float(t))
+            out.append(tofloat(t))
         i += 1
     return out
 
@@ -643,6 +658,10 @@ def check_traj_case(run, c, k, impl_lines, scratch, model):
             if l[0] == "L":
                 lab = l[1]
             else:
+                badt = [q for q in l[2] if isinstance(q, BadToken)] + [q for v_ in l[2] if isinstance(v_, list) for q in v_ if isinstance(q, BadToken)]
+                if badt:
+                    run.violation("trajfields:not-a-number", "data line of step %d holds the token %r, which is not a number (fields run "
+                                  "together?)" % (l[1], badt[0].text), replay)
                 if lab is None:
                     run.violation("trajlabels:data-before-label", "data line of step %d precedes every label line" % l[1], replay)
                 elif len(l[2]) != len(lab):
@@ -1108,6 +1127,8 @@ def vvar_block(vtype, vid, extra=()):
         L += ["  distanceVec {", "    group1 { atomNumbers %d }" % b, "    group2 { atomNumbers %d }" % a, "  }"]
     elif vtype == "cart":
         L += ["  cartesian {", "    atoms { atomNumbers %d %d }" % (a, b), "  }"]
+    elif vtype == "quat":
+        L += ["  orientation {", "    atoms { atomNumbers 5 6 7 8 }", "    refPositions (1.0, 0.0, 0.0) (0.0, 1.0, 0.0) (0.0, 0.0, 1.0) (-1.0, -1.0, -1.0)", "  }"]
     else:
         L += ["  distanceDir {", "    group1 { atomNumbers %d }" % b, "    group2 { atomNumbers %d }" % a, "  }"]
     L.append("}")
@@ -1119,7 +1140,7 @@ def runavev_scenario(c, k):
     dummy = vvar_block("z", 1)
     main = vvar_block(c["vtype"], 0, extra)
     seg = 0
-    L = ["echo CASE %d" % k, "natoms 4", "temperature 300", "dt 1.0", "prefix c%ds%d" % (k, seg), "new"]
+    L = ["echo CASE %d" % k, "natoms 8", "temperature 300", "dt 1.0", "prefix c%ds%d" % (k, seg), "new"]
     if c["it0"]:
         L.append("setstep %d" % c["it0"])
     L += heredoc(["colvarsTrajFrequency 0"] + dummy + (main if c["t0"] == 0 else []))
@@ -1130,7 +1151,10 @@ def runavev_scenario(c, k):
             if nstep == c["t0"] and c["t0"] > 0:
                 L += heredoc(main)
             x = ev[1]
-            if isinstance(x, (list, tuple)):
+            if c["vtype"] == "quat":
+                for a_, pp in enumerate(x):
+                    L.append("pos %d %s %s %s" % (5 + a_, hx(pp[0]), hx(pp[1]), hx(pp[2])))
+            elif isinstance(x, (list, tuple)):
                 L.append("pos 1 %s %s %s" % (hx(x[0]), hx(x[1]), hx(x[2])))
             else:
                 L.append("pos 1 0 0 %s" % hx(x))
@@ -1155,6 +1179,10 @@ def vdist2(vtype, a, b):
         cs = sum(x * y for x, y in zip(a, b))
         cs = max(-1.0, min(1.0, cs))
         return math.acos(cs) ** 2
+    if vtype == "quat":
+        cs = sum(x * y for x, y in zip(a, b))
+        om = math.acos(max(-1.0, min(1.0, cs)))
+        return om * om if cs > 0.0 else (math.pi - om) ** 2
     return sum((x - y) ** 2 for x, y in zip(a, b))
 
 
@@ -1201,13 +1229,13 @@ def check_runavev_case(run, c, k, impl_lines, scratch, model):
             first, boundary = True, False
     segs.append(curseg)
     vt = c["vtype"]
-    kind = {"z": "scalar", "zper": "periodic %s" % hx(PERIOD), "vec": "vector3", "unit": "unit", "cart": "vector3"}[vt]
+    kind = {"z": "scalar", "zper": "periodic %s" % hx(PERIOD), "vec": "vector3", "unit": "unit", "cart": "vector3", "quat": "quat"}[vt]
     # imposed values (oracle): the implementation's values must be the imposed ones
     jj = 0
     for ev in c["events"]:
         if ev[0] != "step":
             continue
-        if jj < len(vals) and vals[jj]["v0"] is not None and vt != "unit":
+        if jj < len(vals) and vals[jj]["v0"] is not None and vt not in ("unit", "quat"):
             want = [wrapz(ev[1])] if vt == "zper" else ([float(ev[1])] if vt == "z" else [float(q) for q in ev[1]])
             if vt == "cart":
                 want = want + [0.0, 0.0, 0.0]
@@ -1271,7 +1299,7 @@ def check_runavev_case(run, c, k, impl_lines, scratch, model):
                 wantsd = math.sqrt(sum((q - m) ** 2 for q in y) / (L - 1)) if L > 1 else None
             else:
                 m = [sum(w[i] for w in win) / L for i in range(len(win[0]))]
-                if vt == "unit":
+                if vt in ("unit", "quat"):
                     nrm = math.sqrt(sum(q * q for q in m))
                     m = [q / nrm for q in m]
                 if not close(av, m, 1e-9):
@@ -1300,7 +1328,7 @@ def check_runavev_case(run, c, k, impl_lines, scratch, model):
 
 
 def gen_runavev_case(r, tier):
-    vt = r.choice(["z", "zper", "zper", "vec", "unit", "cart"])
+    vt = r.choice(["z", "zper", "zper", "vec", "unit", "cart", "quat"])
     L = r.choice([1, 2, 2, 3, 4])
     stride = r.choice([1, 2, 2, 3])
     t0 = r.choice([0, 0, 1, 2, 3, 5])
@@ -1314,6 +1342,16 @@ def gen_runavev_case(r, tier):
         if vt == "zper":
             # a band narrower than half a period, anywhere (often across the boundary +-4)
             return center + V.dyadic(r, -1.5, 1.5, 3)
+        if vt == "quat":
+            # the four reference atoms, rotated about z by a quarter turn or not, plus noise
+            ref = [(1.0, 0.0, 0.0), (0.0, 1.0, 0.0), (0.0, 0.0, 1.0), (-1.0, -1.0, -1.0)]
+            rot = r.choice([0, 0, 1])
+            out = []
+            for (x_, y_, z_) in ref:
+                if rot:
+                    x_, y_ = -y_, x_
+                out.append([x_ + V.dyadic(r, -0.25, 0.25, 4), y_ + V.dyadic(r, -0.25, 0.25, 4), z_ + V.dyadic(r, -0.25, 0.25, 4)])
+            return out
         while True:
             v = [V.dyadic(r, -4, 4, 2) for _ in range(3)]
             if sum(abs(q) for q in v) > 0.5:
